@@ -550,9 +550,25 @@ def lsteps(chk, loadtracer, loadsample, tape, classes):
         is_c = name.startswith('c')
         rig = LoadRig(name, cls, loadtracer, tape, is_c)
         ops, impl, tags, cases = [], [], [], []
-        for i in range(n_cases):
-            kind = ('tsl', 'tsl', 'tsl', 'deca', 'plain', 'port')[i % 6]
+        # directed DEC A group, every run: both loop shapes x boundary values of A (0 counts as 256) x every
+        # accelerate-dec-a setting, interrupts disabled (the hook's precondition)
+        directed = [(form, a, acc) for form in ('jr', 'jp') for a in (0, 1, 2, 0x7F, 0x80, 0xFF) for acc in (1, 2, 3)]
+        for i in range(n_cases + len(directed)):
+            kind = ('tsl', 'tsl', 'tsl', 'deca', 'plain', 'port')[i % 6] if i < n_cases else 'deca'
             case = gen_case(rng, accs, is_c, kind)
+            if i >= n_cases:
+                form, a, acc = directed[i - n_cases]
+                pc = case['fields'][0]
+                for k in range(1, 4):
+                    case['mem'].pop((pc + k) % 65536, None)
+                case['mem'][pc] = 0x3D
+                if form == 'jr':
+                    case['mem'][(pc + 1) % 65536], case['mem'][(pc + 2) % 65536] = 0x20, 0xFD
+                else:
+                    case['mem'][(pc + 1) % 65536], case['mem'][(pc + 2) % 65536], case['mem'][(pc + 3) % 65536] = 0xC2, pc % 256, pc // 256
+                case['regs'][0] = a
+                case['accel_dec_a'] = acc
+                case['fields'][2] = 0
             if case['fields'][2]:
                 # keep IFF = 1 only where no interrupt can be accepted right after the instruction (accept_interrupt is not modelled)
                 t = case['fields'][1]
